@@ -1383,9 +1383,49 @@ KNOWN_WHAT = {
 }
 
 
+def replay_case(ck: Check):
+    """`./check C14 --replay replays/C14/<hash>.json`: re-run one recorded case
+    verbosely (in-process case, client-matrix case or real-process case)."""
+    import json
+    body = json.load(open(ck.replay_path))
+    rp = body.get('replay', body)
+    print('replaying', body.get('signature'), '-', body.get('what', '')[:200])
+    if rp.get('kind') == 'inproc':
+        topo, ncl, script, seed, prefix, fault, second = rp['args']
+        script = [[tuple(a) for a in cl] for cl in script]
+        fault = tuple(fault) if fault else None
+        second = tuple(second) if second else None
+        res = run_batch([(topo, ncl, script, seed, prefix, fault, second)])[0]
+        case = Case(topo, ncl, script, seed, prefix, fault, second).run()
+        for ln in case.lines:
+            print('  ', ln)
+        print('differences from the model:', res['diffs'])
+        print('oracles:', res['oracle'])
+        print('bound:', res['stats'])
+        for sig, text in res['oracle']:
+            ck.violation(sig, text, rp, found_input=True)
+        if res['diffs']:
+            ck.violation('model-mismatch:replay', res['diffs'][0][:300], rp,
+                         found_input=False)
+    elif rp.get('kind') == 'procs':
+        from harness import c14_procs as P
+        res = P.run_case(rp['case'], hard_timeout=300, lock_wait=1800)
+        print(json.dumps(res, indent=1, default=str)[:4000])
+        _a2_report(ck, {'results': [(rp['case'], res)], 'skipped': None})
+    else:
+        viol, n, samples = client_matrix(drv)
+        for sig, key, outcome in viol:
+            if key == rp.get('case'):
+                print(sig, key, outcome)
+                ck.violation(sig, f'Compiler call {key}: {outcome}', rp, True)
+        print(f'client matrix: {n} cases, {len(viol)} violations')
+
+
 def run(ck: Check):
     import multiprocessing as mp
     _quiet()
+    if ck.replay_path:
+        return replay_case(ck)
     thorough = ck.tier == 'thorough'
     # (A2) real processes run concurrently with everything else
     a2 = {'results': [], 'skipped': None}
